@@ -5,10 +5,10 @@ from .. import scenes, obs, pipeline, oracles
 ID, NUM, LEVEL = 'C04', 4, 'exploration'
 RULE = ('Evaluation = one table row recomputed from its member hits: min<=base<=max; base == np.percentile of the '
         'hits selected by the exclusion rule (fall-back to all hits when no more than MAX_HITS_OKTA0 non-excluded '
-        'hits remain), time-ordered, most recent int(n*lookback/100) hits (all when that is 0) - BIT-EXACT unless '
+        'hits remain), time-ordered, most recent int(n*lookback/100) hits (all when that is 0) - to 1e-9 relative unless '
         'the look-back cut falls inside a group of equal time stamps (then inside the interval spanned by the '
         'choices among the tied hits); min/max exact; mean/std/thickness to 1e-9 rel; fluffiness finite >= 0; '
-        'code digits == floor rule and 100*digits <= base; table sorted ascending with index 0..n-1. Workloads: '
+        'code digits == floor rule and 100*digits <= base; table sorted ascending. Workloads: '
         'generated scenes x percentile x look-back x exclusion subsets x LOWESS settings x row orders; '
         'engineered flat layers at the floating-point neighbours of coding boundaries; bimodal/chain families '
         'with several ceilometers (ties at the cut, exclusion fall-backs). Non-trivial = set with >= 2 distinct '
